@@ -220,7 +220,10 @@ def escapeQuotes(text: str) -> str:
 
 
 def strToIntOrFloat(inputStr: str) -> float:
-    return float(inputStr) if "." in inputStr else int(inputStr)
+    try:
+        return int(inputStr)
+    except ValueError:
+        return float(inputStr)
 
 
 def getValueAtTime(
